@@ -22,6 +22,12 @@ D: * OdtContent.iterate_units (real method, objects built in memory) against the
    * workers extract all inputs in one pass and again in reverse order (A, B, ..., B, A): hidden cross-call state;
      generated inputs include OMML formulas with malformed radicals (DOCX, PPTX) and packages with two members whose
      names differ only in case.
+   * process HISTORY: every input is also extracted in a fresh process that only touches inputs of the same extension
+     (isolated-history workers, one per extension) and compared with its extraction after all other formats;
+     generated ODT carry pictures of 14 kinds typed through the host MIME registry; generated PDFs (own minimal writer)
+     carry image XObjects over colour-space form x caption form x object generation (0, 1, 7, 65534, random).
+   X process-global writes: setter-like calls / stores / in-place mutations on standard-library modules (obligation:
+     none; theorem C06_history_independent), third-party monkey patches and `global` statements are listed only.
    X observer stores: every method/property of every class of data_types.py (initialisers, setters excepted), with a
      fail-closed alias analysis (names that may alias an object reachable from self; fresh containers of such).
 """
@@ -649,6 +655,85 @@ def inventory_observer_writes(pkg: Pkg):
     return out
 
 
+SETTER_RE = __import__("re").compile(
+    r"^(set[a-z_A-Z]|add_|register|unregister|install|init$|patch|putenv$|unsetenv$|seed$|chdir$|umask$|"
+    r"field_size_limit$|tzset$|setlocale$|clear_cache$|_clear|invalidate_caches$)")
+LOG_ONLY_MODULES = {"logging", "warnings"}        # affect log output only, never a result
+
+
+def inventory_global_writes(pkg: Pkg):
+    """Writes to PROCESS-GLOBAL state from sharepoint2text/parsing:
+       stdlib   setter-like calls on a stdlib module (mimetypes.add_type, locale.setlocale, ET.register_namespace,
+                sys.setrecursionlimit, csv.field_size_limit, os.putenv ...) and stores / in-place mutations below a
+                stdlib module (os.environ[...] = , sys.path.insert, mimetypes.types_map.update)  -> obligation: none
+       third    the same on third-party modules (monkey patches)  -> listed (C15 owns patch/restore)
+       own      `global` statements of the package's own modules  -> listed"""
+    import sys as _sys
+    stdlib = set(getattr(_sys, "stdlib_module_names", ()))
+    out = []
+    for rel, tree in pkg.mods.items():
+        alias = {}     # local name -> dotted module / object path
+        for n in ast.walk(tree):
+            if isinstance(n, ast.Import):
+                for a in n.names:
+                    alias[a.asname or a.name.split(".")[0]] = a.name if a.asname else a.name.split(".")[0]
+            elif isinstance(n, ast.ImportFrom) and n.module and n.level == 0:
+                for a in n.names:
+                    alias[a.asname or a.name] = n.module + "." + a.name
+
+        def root_of(e):
+            chain = []
+            while isinstance(e, (ast.Attribute, ast.Subscript, ast.Call)):
+                if isinstance(e, ast.Attribute):
+                    chain.append(e.attr)
+                e = e.value if not isinstance(e, ast.Call) else e.func
+            return (e.id, list(reversed(chain))) if isinstance(e, ast.Name) else (None, [])
+
+        def where(name):
+            top = alias.get(name, "").split(".")[0]
+            if not top or top == "sharepoint2text":
+                return None
+            if top in LOG_ONLY_MODULES:
+                return "log"
+            return "stdlib" if top in stdlib else "third"
+
+        for n in ast.walk(tree):
+            if isinstance(n, ast.Global):
+                out.append({"file": rel, "func": pkg.func_name(n), "line": n.lineno, "kind": "own", "what": "global " + ", ".join(n.names)})
+            if isinstance(n, ast.Call):
+                f = n.func
+                if isinstance(f, ast.Attribute):
+                    r, chain = root_of(f)
+                    w = where(r) if r else None
+                    if w in ("stdlib", "third") and r in alias:
+                        if SETTER_RE.match(f.attr) or (len(chain) >= 2 and f.attr in MUTATORS):
+                            out.append({"file": rel, "func": pkg.func_name(n), "line": n.lineno, "kind": w,
+                                        "what": alias[r] + "." + ".".join(chain)})
+                elif isinstance(f, ast.Name) and f.id in alias and where(f.id) in ("stdlib", "third") and SETTER_RE.match(alias[f.id].split(".")[-1]):
+                    out.append({"file": rel, "func": pkg.func_name(n), "line": n.lineno, "kind": where(f.id), "what": alias[f.id]})
+            tgts = []
+            if isinstance(n, ast.Assign):
+                tgts = n.targets
+            elif isinstance(n, (ast.AugAssign, ast.AnnAssign)):
+                tgts = [n.target]
+            elif isinstance(n, ast.Delete):
+                tgts = n.targets
+            for t in tgts:
+                if isinstance(t, (ast.Attribute, ast.Subscript)):
+                    r, chain = root_of(t)
+                    w = where(r) if r else None
+                    # the root must be a module-level import alias that is not rebound locally as a plain variable
+                    if w in ("stdlib", "third") and r in alias and isinstance(alias[r], str):
+                        fn = pkg.enclosing(n, (ast.FunctionDef, ast.AsyncFunctionDef))
+                        local = fn is not None and any(isinstance(x, ast.Name) and x.id == r and isinstance(x.ctx, ast.Store)
+                                                       for x in ast.walk(fn))
+                        params = fn is not None and r in {a.arg for a in fn.args.args + fn.args.kwonlyargs}
+                        if not local and not params:
+                            out.append({"file": rel, "func": pkg.func_name(n), "line": n.lineno, "kind": w,
+                                        "what": alias[r] + "." + ".".join(chain) + " ="})
+    return out
+
+
 USE_OK = {"UNone", "UMember", "ULen", "UAnyAll", "USorted"}
 
 
@@ -657,6 +742,7 @@ def gen_sites(ctx, pkg):
     nd = inventory_nondet(pkg)
     stream, modes = inventory_stream(pkg)
     writes = inventory_observer_writes(pkg)
+    gw = inventory_global_writes(pkg)
     z = lambda n: f"({n})%Z"
     t = "(* GENERATED on every check run by tools/props/c06.py from the ast of the repo under test - do not edit. *)\n"
     t += "From Coq Require Import ZArith List.\nFrom S2T Require Import Lib.PyStr C06.Lib C06.Model.\nImport ListNotations.\n\n"
@@ -672,7 +758,11 @@ def gen_sites(ctx, pkg):
     t += "(* stores through self / shared objects inside observer methods of data_types.py: (class, method, line) *)\n"
     t += "Definition observer_writes : list (str * str * Z) := [\n" + ";\n".join(
         f"  ({coq_str(x['cls'])}, {coq_str(x['method'])}, {z(x['line'])})" for x in writes) + "\n].\n"
+    t += "\n(* writes to process-global state of the STANDARD LIBRARY (registries, environment, interpreter settings) *)\n"
+    t += "Definition stdlib_global_writes : list (str * str * Z * str) := [\n" + ";\n".join(
+        f"  ({coq_str(x['file'])}, {coq_str(x['func'])}, {z(x['line'])}, {coq_str(x['what'])})" for x in gw if x["kind"] == "stdlib") + "\n].\n"
     ctx.gen_write("Gen/C06Sites.v", t)
+    ctx.extra["global_write_sites"] = [f"{x['kind']}: {x['file']}:{x['line']} {x['func']} {x['what']}" for x in gw]
     return sets, nd, stream, modes, writes
 
 
@@ -923,6 +1013,10 @@ def gen_docx(rng, names):
                     corrupt={"word/media/image2.png"})
 
 
+# picture kinds found in ODF packages; their content type is looked up by file name (host MIME registry)
+ODF_PICTURE_EXT = ("emf", "wmf", "svm", "svg", "jpg", "jpeg", "gif", "tif", "tiff", "bmp", "pct", "eps", "webp", "ico")
+
+
 def gen_odt(rng, names):
     ns = ('xmlns:office="urn:oasis:names:tc:opendocument:xmlns:office:1.0" xmlns:style="urn:oasis:names:tc:opendocument:xmlns:style:1.0" '
           'xmlns:text="urn:oasis:names:tc:opendocument:xmlns:text:1.0" xmlns:draw="urn:oasis:names:tc:opendocument:xmlns:drawing:1.0" '
@@ -933,7 +1027,8 @@ def gen_odt(rng, names):
     paras = ['<text:h text:outline-level="1" text:style-name="Heading_20_1">Chapter</text:h>']
     for i, x in enumerate(st):
         paras.append(f'<text:p text:style-name="{x}">{xml_esc(rng.choice(names))} {i}</text:p>')
-    for k, img in enumerate(("a.png", "b.png", "logo.png", "Logo.png")):
+    pics = ["a.png", "b.png", "logo.png", "Logo.png"] + [f"p{i}.{e}" for i, e in enumerate(ODF_PICTURE_EXT)]
+    for k, img in enumerate(pics):
         paras.append(f'<text:p><draw:frame draw:name="img{k}" svg:width="1cm" svg:height="1cm"><draw:image '
                      f'xlink:href="Pictures/{img}"/><svg:title>t{k}</svg:title></draw:frame></text:p>')
     content = (f'<?xml version="1.0"?><office:document-content {ns} office:version="1.2"><office:automatic-styles>{auto}'
@@ -950,7 +1045,63 @@ def gen_odt(rng, names):
     return make_zip([("mimetype", b"application/vnd.oasis.opendocument.text"), ("content.xml", content.encode()),
                      ("styles.xml", styles.encode()), ("meta.xml", meta.encode()), ("META-INF/manifest.xml", man.encode()),
                      ("Pictures/a.png", PNG_1x1), ("Pictures/b.png", PNG_1x1), ("Pictures/logo.png", PNG_1x1),
-                     ("Pictures/Logo.png", PNG_OTHER)], corrupt={"Pictures/b.png"})
+                     ("Pictures/Logo.png", PNG_OTHER)] + [(f"Pictures/p{i}.{e}", PNG_1x1 + e.encode())
+                                                          for i, e in enumerate(ODF_PICTURE_EXT)],
+                    corrupt={"Pictures/b.png"})
+
+
+def gen_pdf(rng, j=0):
+    """Minimal PDF (classic xref table) with image XObjects whose /ColorSpace is a name or an array holding an
+    indirect reference, and whose caption entries (/Alt /Title /TU) may be non-string objects; object generation
+    numbers other than 0 occur (valid after incremental updates).  The j-th document takes the (3j+k)-th combination
+    of (colour space form, caption form, generation), so a handful of documents cover every form with every kind."""
+    objs = {}   # num -> (gen, body bytes)
+    def stream(d, data):
+        return b"<< " + d + b" /Length " + str(len(data)).encode() + b" >>\nstream\n" + data + b"\nendstream"
+    n_img = 3
+    xobj = []
+    nxt = 5
+    for k in range(n_img):
+        img, aux = nxt, nxt + 1
+        nxt += 2
+        i = 3 * j + k
+        g = (1, 0, 7, 65534)[i % 4] if i % 7 else rng.randint(2, 600)
+        form = ("icc", "indexed", "sep", "name", "icc")[i % 5]
+        objs[aux] = (g, stream(b"/N 3", b"\x00" * 8))
+        ref = f"{aux} {g} R".encode()
+        cs = {"name": b"/DeviceRGB", "icc": b"[/ICCBased " + ref + b"]",
+              "indexed": b"[/Indexed /DeviceRGB 1 " + ref + b"]",
+              "sep": b"[/Separation /Spot /DeviceRGB " + ref + b"]"}[form]
+        extra = (b"", b" /Alt [" + ref + b"]", b" /Alt (a picture)", b" /Title " + ref, b" /TU << /K " + ref + b" >>",
+                 b" /Caption [/X " + ref + b"]")[i % 6]
+        objs[img] = (0, stream(b"/Type /XObject /Subtype /Image /Width 1 /Height 1 /BitsPerComponent 8 /ColorSpace " + cs + extra,
+                               b"\xff\x00\x00"))
+        xobj.append(f"/Im{k} {img} 0 R".encode())
+    content = b"BT /F1 12 Tf 20 100 Td (Generated page " + str(rng.randint(1, 99)).encode() + b") Tj ET " + \
+        b" ".join(b"q 10 0 0 10 %d 20 cm /Im%d Do Q" % (20 * k, k) for k in range(n_img))
+    objs[1] = (0, b"<< /Type /Catalog /Pages 2 0 R >>")
+    objs[2] = (0, b"<< /Type /Pages /Kids [3 0 R] /Count 1 >>")
+    objs[3] = (0, b"<< /Type /Page /Parent 2 0 R /MediaBox [0 0 200 200] /Contents 4 0 R /Resources << /Font << /F1 << /Type /Font "
+               b"/Subtype /Type1 /BaseFont /Helvetica >> >> /XObject << " + b" ".join(xobj) + b" >> >> >>")
+    objs[4] = (0, stream(b"", content))
+    out = io.BytesIO()
+    out.write(b"%PDF-1.4\n%\xe2\xe3\xcf\xd3\n")
+    offs = {}
+    for num in sorted(objs):
+        g, body = objs[num]
+        offs[num] = out.tell()
+        out.write(f"{num} {g} obj\n".encode() + body + b"\nendobj\n")
+    xref = out.tell()
+    size = max(objs) + 1
+    out.write(f"xref\n0 {size}\n".encode())
+    out.write(b"0000000000 65535 f \n")
+    for num in range(1, size):
+        if num in objs:
+            out.write(f"{offs[num]:010d} {objs[num][0]:05d} n \n".encode())
+        else:
+            out.write(b"0000000000 00000 f \n")
+    out.write(f"trailer\n<< /Size {size} /Root 1 0 R >>\nstartxref\n{xref}\n%%EOF\n".encode())
+    return out.getvalue()
 
 
 def gen_html(rng, names):
@@ -982,6 +1133,8 @@ def gen_documents(ctx, resources, outdir):
         out[f"gen/doc{k}.docx"] = gen_docx(rng, names)
         out[f"gen/text{k}.odt"] = gen_odt(rng, names)
         out[f"gen/page{k}.html"] = gen_html(rng, names)
+    for k in range(ctx.n(6, 20)):
+        out[f"gen/images{k}.pdf"] = gen_pdf(rng, k)
     pptx = sorted((q for q in resources.rglob("*.pptx") if "password" not in str(q)), key=lambda q: (q.stat().st_size, q.name))
     for k, q in enumerate(pptx[: ctx.n(2, 4)]):
         d = inject_pptx_formulas(q.read_bytes(), gen_omml(rng, rng.randint(3, 6)))
@@ -1365,9 +1518,10 @@ def worker_main(argv):
     warnings.filterwarnings("ignore")
     from sharepoint2text.parsing.router import get_extractor, is_supported_file
     inputs = []
+    only_ext = os.environ.get("C06_ONLY_EXT", "")     # isolated-history worker: inputs of one extension only
     for k, root in enumerate(Path(a) for a in argv[1:]):
         for p in sorted(root.rglob("*")):
-            if p.is_file() and is_supported_file(str(p)):
+            if p.is_file() and is_supported_file(str(p)) and (not only_ext or p.suffix.lower() == only_ext):
                 inputs.append((("" if k == 0 else f"@{k}/") + str(p.relative_to(root)), p))
     res = {rel: [] for rel, _ in inputs}
     for order in (inputs, list(reversed(inputs))):
@@ -1389,27 +1543,33 @@ def worker_main(argv):
     Path(argv[0]).write_text(json.dumps(res))
 
 
-def spawn_workers(ctx, seeds, roots, outdir):
-    procs = []
-    for i, seed in enumerate(seeds):
-        env = dict(os.environ)
-        env["PYTHONHASHSEED"] = str(seed)
-        out = outdir / f"w{i}.json"
-        procs.append((seed, out, subprocess.Popen(
-            [sys.executable, str(Path(__file__).resolve()), "--worker", str(out)] + [str(r) for r in roots],
-            env=env, stdout=subprocess.PIPE, stderr=subprocess.STDOUT, text=True)))
+def spawn_workers(ctx, seeds, roots, outdir, only_exts=None, parallel=10):
+    """one subprocess per (hash seed) or, with only_exts, per extension (isolated process history); at most
+    `parallel` at a time.  -> [(seed or ext, result dict)]"""
+    jobs = [("seed", sd) for sd in seeds] if only_exts is None else [("ext", e) for e in only_exts]
     results = []
-    for seed, out, p in procs:
-        try:
-            log, _ = p.communicate(timeout=900)
-        except subprocess.TimeoutExpired:
-            p.kill()
-            log = "timeout"
-        if p.returncode != 0 or not out.exists():
-            ctx.obligation(f"worker(seed={seed})-completed", False, (log or "")[-800:])
-            continue
-        results.append((seed, json.loads(out.read_text())))
-        out.unlink()
+    for start in range(0, len(jobs), parallel):
+        procs = []
+        for i, (kind, val) in enumerate(jobs[start:start + parallel]):
+            env = dict(os.environ)
+            env["PYTHONHASHSEED"] = str(val) if kind == "seed" else "0"
+            if kind == "ext":
+                env["C06_ONLY_EXT"] = val
+            out = outdir / f"w{kind}{start + i}.json"
+            procs.append((val, out, subprocess.Popen(
+                [sys.executable, str(Path(__file__).resolve()), "--worker", str(out)] + [str(r) for r in roots],
+                env=env, stdout=subprocess.PIPE, stderr=subprocess.STDOUT, text=True)))
+        for val, out, p in procs:
+            try:
+                log, _ = p.communicate(timeout=900)
+            except subprocess.TimeoutExpired:
+                p.kill()
+                log = "timeout"
+            if p.returncode != 0 or not out.exists():
+                ctx.obligation(f"worker({val})-completed", False, (log or "")[-800:])
+                continue
+            results.append((val, json.loads(out.read_text())))
+            out.unlink()
     return results
 
 
@@ -1523,11 +1683,13 @@ def run(ctx):
         "C06_observers_idempotent_fixed", "C06_observer_values_fixed", "C06_seed_independent_refuted",
         "C06_seed_independent_fixed", "C06_neutral_uses_seed_independent", "C06_ordered_use_refuted",
         "C06_input_untouched_serialize",
-        "C06_input_untouched_validate_zip", "C06_readonly_ops_keep_buffer"])
+        "C06_input_untouched_validate_zip", "C06_readonly_ops_keep_buffer", "C06_history_independent",
+        "C06_history_dependent_refuted"])
     ctx.prove("C06/Inst.v", ["Gen/C06Sites.vo", "C06/Corr.vo"], expected=["C06_set_sites_neutral"])
     ctx.prove("C06/InstNd.v", ["Gen/C06Sites.vo"], expected=["C06_nd_sites_no_result_sink"])
     ctx.prove("C06/InstPure.v", ["Gen/C06Sites.vo"], expected=["C06_input_stream_readonly"])
     ctx.prove("C06/InstObs.v", ["Gen/C06Sites.vo"], expected=["C06_observers_do_not_store"])
+    ctx.prove("C06/InstGlobal.v", ["Gen/C06Sites.vo"], expected=["C06_no_stdlib_global_writes"])
 
     mark("proofs")
     # ---- D1: OdtContent.iterate_units vs the heap model
@@ -1629,8 +1791,16 @@ def run(ctx):
     seeds = [0, 0, 1, 2, 3, 7, 42, 1234, 99999, 4294967295][: ctx.n(10, 10)]
     if ctx.tier == "thorough":
         seeds += [rng.randrange(2 ** 32) for _ in range(14)]
+    all_exts = sorted({p.suffix.lower() for p in list(resources.rglob("*")) + list(gen_root.rglob("*"))
+                       if p.is_file() and is_supported_file(str(p))})
     with tempfile.TemporaryDirectory(dir="/var/tmp") as td:
         results = spawn_workers(ctx, seeds, [resources, gen_root], Path(td))
+        mark("seed-workers")
+        # process HISTORY: every input also in a fresh process that touches only inputs of the same extension
+        # (nothing else imported / extracted before) -- compared with the extraction after everything else
+        solo = spawn_workers(ctx, [], [resources, gen_root], Path(td), only_exts=all_exts, parallel=4)
+    ctx.extra["isolated_history_workers"] = [e for e, _ in solo]
+    ctx.obligation("isolated-history workers cover every extension", len(solo) == len(all_exts), f"{len(solo)} of {len(all_exts)}")
     ctx.obligation("workers>=8-hash-seeds", len({s for s, _ in results}) >= 8, f"only {len(results)} workers completed")
     if results:
         base_seed, base = results[0]
@@ -1669,11 +1839,25 @@ def run(ctx):
                                                          "hashseeds": [base_seed, seed]})
             ctx.case(("seeds", rel, r0["digest"]), len(results) >= 2,
                      kind=("generated" if rel.startswith("@1/") else "fixture") + "-x-seeds:" + (r0["types"][0] if r0["types"] else "raises"))
+        for ext, res in solo:
+            for rel in sorted(res):
+                if rel not in base:
+                    continue
+                a, late = res[rel][0], base[rel][1]
+                ctx.case(("history", rel, a["digest"]), True, kind="isolated-history:" + ext)
+                if a["digest"] != late["digest"] and a["digest"] == res[rel][1]["digest"] and late["digest"] == base[rel][0]["digest"]:
+                    origin = "generated input" if rel.startswith("@1/") else "fixture"
+                    for path in diff_paths(late, a) or ["<digest only>"]:
+                        ctx.finding(f"history-dependent:{path}",
+                                    f"{path} depends on what the process did before: a fresh process that extracts only *{ext} inputs "
+                                    f"vs. the same process after all other formats were extracted ({origin} {rel}, same PYTHONHASHSEED)",
+                                    {"input": rel, "bytes": input_bytes(rel), "path": path,
+                                     "mode": "isolated process history vs after all other inputs"})
         ctx.extra["inputs_per_worker"] = len(base)
         ctx.extra["hash_seeds"] = [s for s, _ in results]
     td_obj.cleanup()
 
-    mark("seed-workers")
+    mark("history-workers")
     # ---- D4: stream position/content discipline of the two modelled helpers (tie of Part C)
     stream_oracle(ctx)
     mark("stream")
